@@ -199,6 +199,9 @@ SRC_FOLLOW = {
     "unack_noclosure": ("valid/unack/False", [("tick",)] * 6),
     "unack_closure": ("valid/unack/True", [("tick",)] * 5 + [("fin",), ("tick",)]),
     "ack": ("valid/ack/False", [("tick",)] * 5 + [("ackeof",), ("fin",), ("tick",), ("tick",)]),
+    # the source file was rewritten (same length, other bytes) since the previous transaction
+    "rewritten": ("valid+rw", [("tick",)] * 6 + [("ackeof",), ("fin",), ("tick",), ("tick",)]),
+    "rewritten_cancel": ("valid+rw", [("tick",)] * 2 + [("cancel",)] + [("tick",), ("ackeof",), ("fin",), ("tick",)]),
     "silence": ("valid", [("tick",)] * 4 + [("expire",)] * 3 + [("tick",)]),
     "empty_silence": ("empty", [("tick",)] * 3 + [("expire",)] * 3 + [("tick",)]),
 }
@@ -247,6 +250,11 @@ class HistSrc(SrcWorld):
     def run_script(self, st, ent, variant, script):
         obs_list = []
         peer_save = st.peer
+        if variant.endswith("+rw"):
+            variant = variant[:-3]
+            with open(core.SRC_PATH, "wb") as f:
+                f.write(bytes(b ^ 0x5A for b in st.src))
+            sandbox.invalidate()
         parts = variant.split("/")
         req = self.put_req(parts[0])
         if len(parts) == 3:
